@@ -3,7 +3,7 @@
    preserved by every event; the theorems of props/C10.v are its corollaries. *)
 From Coq Require Import List Arith NArith Bool Lia ZifyBool ZifyNat ZifyN.
 Import ListNotations.
-Require Import Aiuti.Batcher.
+Require Import Aiuti.Batcher Aiuti.BatcherLift.
 
 Local Arguments N.add : simpl never.
 Local Arguments N.leb : simpl never.
@@ -149,7 +149,7 @@ Qed.
 
 Lemma dispatch_L c its s : LInv c s -> good_batch its -> LInv c (fst (dispatch its s)).
 Proof.
-  intros I Hg. unfold dispatch.
+  intros I Hg. unfold dispatch. cbn [free set_spawn waiting].
   destruct (0 <? free s) eqn:E.
   - apply start_batch_L; auto.
     + destruct I. constructor; simpl; auto. lia.
@@ -186,8 +186,9 @@ Lemma dispatch_ghost c its s :
   g_items (fst (dispatch its s)) = g_items s /\ maxb (fst (dispatch its s)) = maxb s /\
   now (fst (dispatch its s)) = now s.
 Proof.
-  intros I. unfold dispatch, handed. destruct (0 <? free s) eqn:E.
-  - destruct (start_batch_ghost its (set_free s (free s - 1))) as (H1 & H2 & H3 & H4 & H5 & H6).
+  intros I. unfold dispatch, handed. cbn [free set_spawn waiting]. destruct (0 <? free s) eqn:E.
+  - match goal with |- context [start_batch its ?s1] =>
+      destruct (start_batch_ghost its s1) as (H1 & H2 & H3 & H4 & H5 & H6) end.
     rewrite H1, H2, H3, H4, H5, H6. simpl.
     assert (Hw : waiting s = []).
     { destruct (waiting s) eqn:W; auto. pose proof (L_wait _ _ I) as H. rewrite W in H.
@@ -300,7 +301,7 @@ Proof.
     rewrite app_nil_r, Hits. unfold handed, started_items. simpl. repeat split.
 Qed.
 
-Lemma do_call_L c a ko s : LInv c s -> LInv c (fst (do_call c a ko s)).
+Lemma do_call_L c a ko m s : LInv c s -> LInv c (fst (do_call c a ko m s)).
 Proof.
   intros I. unfold do_call.
   destruct (lookup (ret s) (key_of a ko)) as [f|].
@@ -308,7 +309,7 @@ Proof.
   - apply take_L; [|reflexivity]. destruct I; constructor; auto.
 Qed.
 
-Lemma do_call_fifo c a ko s : LInv c s -> Fifo s -> Fifo (fst (do_call c a ko s)).
+Lemma do_call_fifo c a ko m s : LInv c s -> Fifo s -> Fifo (fst (do_call c a ko m s)).
 Proof.
   intros I F. unfold do_call.
   destruct (lookup (ret s) (key_of a ko)) as [f|].
@@ -324,9 +325,58 @@ Lemma do_calls_LF c l : forall s, LInv c s -> Fifo s ->
   LInv c (fst (do_calls c l s)) /\ Fifo (fst (do_calls c l s)).
 Proof.
   induction l as [|[a ko] r IH]; intros s I F; simpl; auto.
-  pose proof (do_call_L c a ko s I) as I1. pose proof (do_call_fifo c a ko s I F) as F1.
-  destruct (do_call c a ko s) as [s1 o1]. simpl in *.
+  pose proof (do_call_L c a ko 0 s I) as I1. pose proof (do_call_fifo c a ko 0 s I F) as F1.
+  destruct (do_call c a ko 0 s) as [s1 o1]. simpl in *.
   specialize (IH s1 I1 F1). destruct (do_calls c r s1) as [s2 o2]. simpl in *. exact IH.
+Qed.
+
+Definition LF (c : cfg) (s : state) : Prop := LInv c s /\ Fifo s.
+
+Lemma call_LF c a ko m s : LF c s -> LF c (fst (do_call c a ko m s)) /\ True.
+Proof. intros [I F]. split; auto. split; [apply do_call_L | apply do_call_fifo]; auto. Qed.
+
+Lemma wake_LF c s : LF c s -> LF c (fst (wake s)) /\ True.
+Proof.
+  intros [I F]. pose proof (wake_same s) as S. split; auto.
+  split; [eapply same_L_inv | eapply same_L_fifo]; eauto.
+Qed.
+
+Lemma do_chain_LF c a ko m s : LInv c s -> Fifo s ->
+  LInv c (fst (do_chain c a ko m s)) /\ Fifo (fst (do_chain c a ko m s)).
+Proof.
+  intros I F. apply (lift_chain c (LF c) (fun _ _ _ => True)); auto. apply call_LF. split; auto.
+Qed.
+
+Lemma wake_all_LF c s : LInv c s -> Fifo s ->
+  LInv c (fst (wake_all c s)) /\ Fifo (fst (wake_all c s)).
+Proof.
+  intros I F. apply (lift_wake_all c (LF c) (fun _ _ _ => True)); auto.
+  - apply call_LF.
+  - apply wake_LF.
+  - split; auto.
+Qed.
+
+(* the states inside [end_batch]: after leaving the semaphore, after the fan-out *)
+Lemma end_batch_mid c B o s :
+  LInv c s -> Fifo s -> In B (running s) ->
+  let s0 := set_running s (filter (fun x => negb (Nat.eqb (b_id x) (b_id B))) (running s)) in
+  let s1 := fst (release_slot s0) in
+  let s2 := fst (fanout c (b_futs B) o s1) in
+  LInv c s1 /\ Fifo s1 /\ LInv c s2 /\ Fifo s2.
+Proof.
+  intros I F HB s0 s1 s2.
+  assert (P0 : LPre c s0).
+  { destruct I. constructor; simpl; auto.
+    - pose proof (filter_id_length (running s) B L_ids0 HB). lia.
+    - now apply filter_id_nodup.
+    - intros B' H. apply filter_In in H as [H _]. auto.
+    - intros B' H. apply filter_In in H as [H _]. auto. }
+  assert (W0 : waiting s0 <> [] -> free s0 = 0) by (simpl; apply (L_wait _ _ I)).
+  pose proof (release_slot_L c s0 P0 W0) as I1.
+  destruct (release_slot_ghost s0) as (G1 & G2 & G3 & _).
+  assert (F1 : Fifo s1) by (unfold s1, Fifo, coll_items; rewrite G1, G2, G3; exact F).
+  pose proof (fanout_same c (b_futs B) o s1) as S2.
+  split; [exact I1|]. split; [exact F1|]. split; [eapply same_L_inv | eapply same_L_fifo]; eauto.
 Qed.
 
 Lemma end_batch_LF c B o s :
@@ -349,11 +399,9 @@ Proof.
   destruct (release_slot s0) as [s1 o1]. simpl in *.
   pose proof (fanout_same c (b_futs B) o s1) as S2.
   destruct (fanout c (b_futs B) o s1) as [s2 died]. simpl in *.
-  pose proof (wake_same s2) as S3.
-  destruct (wake s2) as [s3 o3]. simpl in *.
-  split.
-  - eapply same_L_inv; [exact S3|]. eapply same_L_inv; [exact S2|]. exact I1.
-  - eapply same_L_fifo; [exact S3|]. eapply same_L_fifo; [exact S2|]. exact F1.
+  assert (I2 : LInv c s2) by (eapply same_L_inv; [exact S2|exact I1]).
+  assert (F2 : Fifo s2) by (eapply same_L_fifo; [exact S2|exact F1]).
+  pose proof (wake_all_LF c s2 I2 F2) as H3. destruct (wake_all c s2) as [s3 o3]. exact H3.
 Qed.
 
 Lemma fire_at_LF c t s :
@@ -414,8 +462,9 @@ Qed.
 Theorem step_LF c s e :
   ev_ok e -> LInv c s -> Fifo s -> LInv c (fst (step c s e)) /\ Fifo (fst (step c s e)).
 Proof.
-  intros He I F. destruct e as [a ko|l|dt|b k r|b e|b|cid|n]; simpl.
+  intros He I F. destruct e as [a ko|a ko m|l|dt|b k r|b e|b|cid|n]; simpl.
   - split; [apply do_call_L | apply do_call_fifo]; auto.
+  - apply do_chain_LF; auto.
   - apply do_calls_LF; auto.
   - apply advance_LF; auto.
   - destruct (find_batch s b) as [B|] eqn:FB; [|auto].
@@ -427,11 +476,10 @@ Proof.
       assert (F1 : Fifo s0) by exact F.
       unfold set_fut. destruct (is_done s0 f).
       * apply end_batch_LF; auto. subst b. apply in_set_batch_futs; auto.
-      * pose proof (wake_same (resolve c k f (of_res r) s0)) as S3.
-        pose proof (resolve_same c k f (of_res r) s0) as S2.
-        split.
-        -- eapply same_L_inv; [exact S3|]. eapply same_L_inv; [exact S2|]. exact I1.
-        -- eapply same_L_fifo; [exact S3|]. eapply same_L_fifo; [exact S2|]. exact F1.
+      * pose proof (resolve_same c k f (of_res r) s0) as S2.
+        apply wake_all_LF.
+        -- eapply same_L_inv; [exact S2|]. exact I1.
+        -- eapply same_L_fifo; [exact S2|]. exact F1.
     + apply end_batch_LF; auto.
   - destruct (find_batch s b) as [B|] eqn:FB; [|auto].
     apply find_batch_some in FB as [HB Hid].
@@ -483,8 +531,8 @@ Proof. exists [(nbid s, its, now s)]. split; reflexivity. Qed.
 
 Lemma dispatch_emits its s : Emits s (fst (dispatch its s)) (snd (dispatch its s)).
 Proof.
-  unfold dispatch. destruct (0 <? free s).
-  - apply (start_batch_emits its (set_free s (free s - 1))).
+  unfold dispatch. cbn [free set_spawn waiting]. destruct (0 <? free s).
+  - match goal with |- context [start_batch its ?s1] => apply (start_batch_emits its s1) end.
   - now apply emits_nil.
 Qed.
 
@@ -502,7 +550,7 @@ Proof.
   - apply (dispatch_emits _ (set_coll s None)).
 Qed.
 
-Lemma do_call_emits c a ko s : Emits s (fst (do_call c a ko s)) (snd (do_call c a ko s)).
+Lemma do_call_emits c a ko m s : Emits s (fst (do_call c a ko m s)) (snd (do_call c a ko m s)).
 Proof.
   unfold do_call. destruct (lookup (ret s) _) as [f|].
   - destruct (lookup (fdone s) f) as [[o t]|]; now apply emits_nil.
@@ -513,7 +561,7 @@ Lemma do_calls_emits c l : forall s, Emits s (fst (do_calls c l s)) (snd (do_cal
 Proof.
   induction l as [|[a ko] r IH]; intros s; simpl.
   - now apply emits_nil.
-  - pose proof (do_call_emits c a ko s) as E1. destruct (do_call c a ko s) as [s1 o1].
+  - pose proof (do_call_emits c a ko 0 s) as E1. destruct (do_call c a ko 0 s) as [s1 o1].
     specialize (IH s1). destruct (do_calls c r s1) as [s2 o2]. simpl in *.
     eapply emits_trans; eauto.
 Qed.
@@ -531,12 +579,29 @@ Proof.
   destruct (wake_from _ _ _ _) as [cs os]. simpl in *. now apply emits_nil.
 Qed.
 
+Lemma call_emits_ok c a ko m s : True -> True /\ Emits s (fst (do_call c a ko m s)) (snd (do_call c a ko m s)).
+Proof. intros _. split; auto. apply do_call_emits. Qed.
+
+Lemma emits_refl s : True -> Emits s s [].
+Proof. intros _. now apply emits_nil. Qed.
+
+Lemma do_chain_emits c a ko m s : Emits s (fst (do_chain c a ko m s)) (snd (do_chain c a ko m s)).
+Proof.
+  apply (lift_chain c (fun _ => True) Emits emits_refl emits_trans (call_emits_ok c)). exact I.
+Qed.
+
+Lemma wake_all_emits c s : Emits s (fst (wake_all c s)) (snd (wake_all c s)).
+Proof.
+  apply (lift_wake_all c (fun _ => True) Emits emits_refl emits_trans (call_emits_ok c)); auto.
+  intros s0 _. split; auto. apply wake_emits.
+Qed.
+
 Lemma end_batch_emits c B o s : Emits s (fst (end_batch c B o s)) (snd (end_batch c B o s)).
 Proof.
   unfold end_batch. set (s0 := set_running s _).
   pose proof (release_slot_emits s0) as E1. destruct (release_slot s0) as [s1 o1]. simpl in *.
   pose proof (fanout_same c (b_futs B) o s1) as S2. destruct (fanout c (b_futs B) o s1) as [s2 died]. simpl in *.
-  pose proof (wake_emits s2) as E3. destruct (wake s2) as [s3 o3]. simpl in *.
+  pose proof (wake_all_emits c s2) as E3. destruct (wake_all c s2) as [s3 o3]. simpl in *.
   destruct E1 as (n1 & A1 & B1). destruct E3 as (n3 & A3 & B3).
   destruct S2 as (_ & _ & _ & _ & _ & _ & S2 & _).
   exists (n1 ++ n3). split.
@@ -565,8 +630,9 @@ Qed.
 
 Lemma step_emits c s e : Emits s (fst (step c s e)) (snd (step c s e)).
 Proof.
-  destruct e as [a ko|l|dt|b k r|b e|b|cid|n]; simpl.
+  destruct e as [a ko|a ko m|l|dt|b k r|b e|b|cid|n]; simpl.
   - apply do_call_emits.
+  - apply do_chain_emits.
   - apply do_calls_emits.
   - apply advance_emits.
   - destruct (find_batch s b) as [B|]; [|now apply emits_nil].
@@ -575,7 +641,7 @@ Proof.
       * match goal with |- Emits _ (fst (end_batch c ?B' ?o ?s0)) _ =>
           pose proof (end_batch_emits c B' o s0) as (n1 & A1 & B1) end.
         exists n1. split; auto.
-      * match goal with |- Emits _ (fst (wake ?s1)) _ => pose proof (wake_emits s1) as (n1 & A1 & B1) end.
+      * match goal with |- Emits _ (fst (wake_all c ?s1)) _ => pose proof (wake_all_emits c s1) as (n1 & A1 & B1) end.
         exists n1. split; auto. rewrite A1. unfold resolve. destruct (0 <? c_rt c)%N; reflexivity.
     + match goal with |- Emits _ (fst (end_batch c ?B' ?o ?s0)) _ =>
         pose proof (end_batch_emits c B' o s0) as (n1 & A1 & B1) end.
@@ -640,7 +706,7 @@ Proof.
   - intros it H. apply in_app_or in H as [H|H]; auto. rewrite <- M1. auto.
 Qed.
 
-Lemma do_call_grows c a ko s : LInv c s -> Grows s (fst (do_call c a ko s)).
+Lemma do_call_grows c a ko m s : LInv c s -> Grows s (fst (do_call c a ko m s)).
 Proof.
   intros I. unfold do_call. destruct (lookup (ret s) _) as [f|].
   - destruct (lookup (fdone s) f) as [[o t]|]; now apply grows_same.
@@ -655,22 +721,65 @@ Lemma do_calls_grows c l : forall s, LInv c s -> Fifo s -> Grows s (fst (do_call
 Proof.
   induction l as [|[a ko] r IH]; intros s I F; simpl.
   - now apply grows_same.
-  - pose proof (do_call_grows c a ko s I) as G1.
-    pose proof (do_call_L c a ko s I) as I1. pose proof (do_call_fifo c a ko s I F) as F1.
-    destruct (do_call c a ko s) as [s1 o1]. simpl in *.
+  - pose proof (do_call_grows c a ko 0 s I) as G1.
+    pose proof (do_call_L c a ko 0 s I) as I1. pose proof (do_call_fifo c a ko 0 s I F) as F1.
+    destruct (do_call c a ko 0 s) as [s1 o1]. simpl in *.
     specialize (IH s1 I1 F1). destruct (do_calls c r s1) as [s2 o2]. simpl in *.
     eapply grows_trans; eauto.
 Qed.
 
-Lemma end_batch_grows c B o s : Grows s (fst (end_batch c B o s)).
+Lemma grows_refl' c s : LF c s -> (fun s s' (_ : list obs) => Grows s s') s s [].
+Proof. intros _. now apply grows_same. Qed.
+
+Lemma call_LFG c a ko m s :
+  LF c s -> LF c (fst (do_call c a ko m s)) /\ Grows s (fst (do_call c a ko m s)).
+Proof. intros [I F]. split; [apply call_LF; split; auto | now apply do_call_grows]. Qed.
+
+Lemma wake_LFG c s : LF c s -> LF c (fst (wake s)) /\ Grows s (fst (wake s)).
 Proof.
-  unfold end_batch. set (s0 := set_running s _).
-  destruct (release_slot_ghost s0) as (_ & _ & G3 & G4 & _).
+  intros H. split; [now apply wake_LF|].
+  pose proof (wake_same s) as (_ & _ & _ & _ & M3 & _ & _ & T3 & _). now apply grows_same.
+Qed.
+
+Lemma do_chain_grows c a ko m s : LInv c s -> Fifo s -> Grows s (fst (do_chain c a ko m s)).
+Proof.
+  intros I F.
+  apply (lift_chain c (LF c) (fun s s' _ => Grows s s') (grows_refl' c)
+           (fun s1 s2 s3 _ _ => grows_trans s1 s2 s3) (call_LFG c)). split; auto.
+Qed.
+
+Lemma wake_all_grows c s : LInv c s -> Fifo s -> Grows s (fst (wake_all c s)).
+Proof.
+  intros I F.
+  apply (lift_wake_all c (LF c) (fun s s' _ => Grows s s') (grows_refl' c)
+           (fun s1 s2 s3 _ _ => grows_trans s1 s2 s3) (call_LFG c) (wake_LFG c)). split; auto.
+Qed.
+
+Lemma end_batch_grows c B o s :
+  LInv c s -> Fifo s -> In B (running s) -> Grows s (fst (end_batch c B o s)).
+Proof.
+  intros I F HB. unfold end_batch.
+  set (s0 := set_running s _).
+  assert (P0 : LPre c s0).
+  { destruct I. constructor; simpl; auto.
+    - pose proof (filter_id_length (running s) B L_ids0 HB). lia.
+    - now apply filter_id_nodup.
+    - intros B' H. apply filter_In in H as [H _]. auto.
+    - intros B' H. apply filter_In in H as [H _]. auto. }
+  assert (W0 : waiting s0 <> [] -> free s0 = 0) by (simpl; apply (L_wait _ _ I)).
+  pose proof (release_slot_L c s0 P0 W0) as I1.
+  destruct (release_slot_ghost s0) as (G1 & G2 & G3 & G4 & _).
+  assert (F1 : Fifo (fst (release_slot s0))).
+  { unfold Fifo, coll_items. rewrite G1, G2, G3. exact F. }
   destruct (release_slot s0) as [s1 o1]. simpl in *.
-  pose proof (fanout_same c (b_futs B) o s1) as S2. destruct (fanout c (b_futs B) o s1) as [s2 died]. simpl in *.
-  pose proof (wake_same s2) as S3. destruct (wake s2) as [s3 o3]. simpl in *.
-  destruct S2 as (_ & _ & _ & _ & M2 & _ & _ & T2 & _). destruct S3 as (_ & _ & _ & _ & M3 & _ & _ & T3 & _).
-  apply grows_same; congruence.
+  pose proof (fanout_same c (b_futs B) o s1) as S2.
+  destruct (fanout c (b_futs B) o s1) as [s2 died]. simpl in *.
+  assert (I2 : LInv c s2) by (eapply same_L_inv; [exact S2|exact I1]).
+  assert (F2 : Fifo s2) by (eapply same_L_fifo; [exact S2|exact F1]).
+  pose proof (wake_all_grows c s2 I2 F2) as G.
+  destruct (wake_all c s2) as [s3 o3]. simpl in *.
+  destruct S2 as (_ & _ & _ & _ & M2 & _ & _ & T2 & _).
+  eapply grows_trans; [|exact G]. apply grows_same; congruence.
 Qed.
 
 Lemma fire_at_grows c t s : LInv c s -> Grows s (fst (fire_at t s)).
@@ -700,26 +809,34 @@ Lemma step_grows c s e :
   LInv c s -> Fifo s -> match e with SetMax n => g_items (fst (step c s e)) = g_items s /\ maxb (fst (step c s e)) = n
                         | _ => Grows s (fst (step c s e)) end.
 Proof.
-  intros I F. destruct e as [a ko|l|dt|b k r|b e|b|cid|n]; simpl.
+  intros I F. destruct e as [a ko|a ko m|l|dt|b k r|b e|b|cid|n]; simpl.
   - now apply (do_call_grows c).
+  - now apply (do_chain_grows c).
   - now apply (do_calls_grows c).
   - now apply (advance_grows c).
-  - destruct (find_batch s b) as [B|]; [|now apply grows_same].
+  - destruct (find_batch s b) as [B|] eqn:FB; [|now apply grows_same].
+    apply find_batch_some in FB as [HB Hid].
+    assert (I0 : LInv c (log_bev s b (EvYield k r))) by (destruct I; constructor; auto).
     destruct (lookup (b_futs B) k) as [f|].
-    + unfold set_fut. match goal with |- context [is_done ?s0 f] => destruct (is_done s0 f) end.
-      * match goal with |- Grows _ (fst (end_batch c ?B' ?o ?s0)) =>
-          pose proof (end_batch_grows c B' o s0) as G end. exact G.
-      * match goal with |- Grows _ (fst (wake ?s1)) => pose proof (wake_same s1) as S3 end.
-        destruct S3 as (_ & _ & _ & _ & M3 & _ & _ & T3 & _).
-        apply grows_same; [rewrite T3|rewrite M3]; unfold resolve; destruct (0 <? c_rt c)%N; reflexivity.
-    + match goal with |- Grows _ (fst (end_batch c ?B' ?o ?s0)) =>
-        pose proof (end_batch_grows c B' o s0) as G end. exact G.
-  - destruct (find_batch s b) as [B|]; [|now apply grows_same].
-    match goal with |- Grows _ (fst (end_batch c ?B' ?o ?s0)) =>
-      pose proof (end_batch_grows c B' o s0) as G end. exact G.
-  - destruct (find_batch s b) as [B|]; [|now apply grows_same].
-    match goal with |- Grows _ (fst (end_batch c ?B' ?o ?s0)) =>
-      pose proof (end_batch_grows c B' o s0) as G end. exact G.
+    + set (s0 := set_batch_futs _ b _).
+      assert (I1 : LInv c s0) by (apply set_batch_futs_L; exact I0).
+      assert (F1 : Fifo s0) by exact F.
+      assert (G0 : Grows s s0) by now apply grows_same.
+      unfold set_fut. destruct (is_done s0 f).
+      * eapply grows_trans; [exact G0|]. apply end_batch_grows; auto. subst b. apply in_set_batch_futs; auto.
+      * pose proof (resolve_same c k f (of_res r) s0) as S2.
+        eapply grows_trans; [exact G0|]. eapply grows_trans.
+        -- apply (grows_same s0 (resolve c k f (of_res r) s0)); unfold resolve; destruct (0 <? c_rt c)%N; reflexivity.
+        -- apply wake_all_grows; [eapply same_L_inv | eapply same_L_fifo]; eauto.
+    + eapply grows_trans; [|apply end_batch_grows; eauto]. now apply grows_same.
+  - destruct (find_batch s b) as [B|] eqn:FB; [|now apply grows_same].
+    apply find_batch_some in FB as [HB Hid].
+    eapply grows_trans; [|apply end_batch_grows; eauto]; [now apply grows_same|].
+    destruct I; constructor; auto.
+  - destruct (find_batch s b) as [B|] eqn:FB; [|now apply grows_same].
+    apply find_batch_some in FB as [HB Hid].
+    eapply grows_trans; [|apply end_batch_grows; eauto]; [now apply grows_same|].
+    destruct I; constructor; auto.
   - pose proof (cancel_same s cid) as (_ & _ & _ & _ & M & _ & _ & T & _). now apply grows_same.
   - auto.
 Qed.
@@ -823,7 +940,7 @@ Proof.
   intros Hc He. simpl. destruct (init_LF c Hc) as [I0 F0].
   destruct (run_from_LF c evs (init c) He I0 F0) as [I F]. fold (run c evs) in I, F.
   rewrite trace_starts. unfold Fifo, handed, started_items in F. rewrite <- F.
-  rewrite !map_app, <- app_assoc. f_equal.
+  rewrite !map_app, <- app_assoc. f_equal. clear F I.
   induction (g_started (snd (run c evs))) as [|[[b its] t] r IH]; simpl; auto.
   now rewrite map_app, IH.
 Qed.
